@@ -254,6 +254,10 @@ theorem truediv_errors (p q : MPoly K) (c : K) :
 theorem coeff_D (f : K[T;T⁻¹]) (k : ℤ) : (D f).coeff k = ((k + 1 : ℤ) : K) * f.coeff (k + 1) :=
   ALV.C07.coeff_D f k
 
+/-- the specification's `sDiff` is that derivative, coefficient by coefficient -/
+theorem sDiff_coeff (p : MPoly K) (k : ℤ) : coeff (sDiff p) k = ofIntA (k + 1) * coeff p (k + 1) := by
+  rw [← ALV.C07.coeff_toLaurent, toLaurent_sDiff, ALV.C07.coeff_D, ALV.C07.coeff_toLaurent, ofIntA_eq]
+
 /-- **C07.5a** `p.diff(n)` is the n-th formal derivative of the denoted Laurent polynomial. -/
 theorem toLaurent_diff {p : MPoly K} (hp : WF p) (n : ℕ) : toLaurent (diff p n) = D^[n] (toLaurent p) :=
   ALV.C07.toLaurent_diff hp.1 n
@@ -847,6 +851,10 @@ theorem erase_div_calculus (hI : I * I = -1) {p : ZPoly} (hg : Good p) (hz : Num
 /-- **C07.11f** evaluation on exact numbers, every scheme, `v == 0` and the empty Poly included. -/
 theorem erase_call (hI : I * I = -1) {p : ZPoly} (hz : NumZ p.zero) (v : PyNum) (h : Horner) :
     valOf I (callZ p v h) = call (erase I p) (num I v) h := valOf_callZ hI hz v h
+
+/-- `p.values()` (and `order`, AttributeError included) -/
+theorem erase_values (hI : I * I = -1) {p : ZPoly} (hz : NumZ p.zero) :
+    (valuesZ p).map (List.map (valOf I)) = values (erase I p) := erase_valuesZ hI hz
 
 /-- **C07.11g** `p == q` is `==` of the erasures, i.e. (for well-formed Polys) same denotation in `F[T;T⁻¹]`. -/
 theorem erase_eq (hI : I * I = -1) {p q : ZPoly} (hz : NumZ p.zero) (hz' : NumZ q.zero) :
